@@ -69,7 +69,7 @@ def build_harness():
     _built = True
 
 
-def _run_batch(cmd, reqs, timeout, env=None):
+def _run_batch(cmd, reqs, timeout, env=None, solo=False):
     """Run one harness process over reqs (sequentially). Returns list of
     (req, result|None, crashinfo|None). A request without a result because the
     process died or timed out gets crashinfo; the requests after it are re-run
@@ -111,7 +111,12 @@ def _run_batch(cmd, reqs, timeout, env=None):
         culprit = pending[len(got)]
         info = {"rc": rc, "timeout": timed,
                 "stderr": err.decode("utf-8", "replace")[-600:]}
-        results.append((culprit, None, info))
+        if not solo:
+            # confirm in a fresh process: only a request that kills the process on its own is blamed
+            again = _run_batch(cmd, [culprit], timeout, env, solo=True)
+            results.append(again[0])
+        else:
+            results.append((culprit, None, info))
         pending = pending[len(got) + 1:]
     return results
 
